@@ -357,6 +357,46 @@ func c17Same(got, want map[string]c17Route) bool {
 	return true
 }
 
+// c17EnvLog is the session's logger: it only remembers connect errors that come from the operating system running
+// out of local ports / descriptors, so that such a run is reported as inconclusive instead of "did not converge".
+type c17EnvLog struct {
+	mu     sync.Mutex
+	last   string
+	errors []string // the last connect errors of the session, for the text of a timeout report
+}
+
+func (l *c17EnvLog) recent() []string {
+	l.mu.Lock()
+	defer l.mu.Unlock()
+	return append([]string(nil), l.errors...)
+}
+
+func (l *c17EnvLog) Log(kv ...interface{}) error {
+	msg := fmt.Sprint(kv...)
+	if strings.Contains(msg, "connect") {
+		l.mu.Lock()
+		l.errors = append(l.errors, msg)
+		if len(l.errors) > 4 {
+			l.errors = l.errors[len(l.errors)-4:]
+		}
+		l.mu.Unlock()
+	}
+	for _, pat := range []string{"address already in use", "cannot assign requested address", "too many open files"} {
+		if strings.Contains(msg, pat) {
+			l.mu.Lock()
+			l.last = msg
+			l.mu.Unlock()
+		}
+	}
+	return nil
+}
+
+func (l *c17EnvLog) portTrouble() string {
+	l.mu.Lock()
+	defer l.mu.Unlock()
+	return l.last
+}
+
 func runC17(c c17Case, tr *vw.Trace) *vw.Violation {
 	// a busy machine can run out of local ports for a moment (every finished connection lingers in TIME_WAIT):
 	// that says nothing about the session under test, so wait for ports instead of judging anything
@@ -381,6 +421,7 @@ func runC17(c c17Case, tr *vw.Trace) *vw.Violation {
 	go p.serve()
 	port := ln.Addr().(*net.TCPAddr).Port
 	hold := 90 * time.Second
+	envLog := &c17EnvLog{}
 	sm := NewSessionManager(log.NewNopLogger())
 	params := bgp.SessionParameters{PeerAddress: "127.0.0.1", PeerPort: uint16(port), MyASN: speakerASN, PeerASN: peerASN,
 		RouterID: net.ParseIP("1.2.3.4"), HoldTime: &hold, CurrentNode: "node0", SessionName: "peer"}
@@ -388,7 +429,7 @@ func runC17(c c17Case, tr *vw.Trace) *vw.Violation {
 		params.SourceAddress = net.ParseIP("127.0.0.1")
 		tr.Class("session-with-source-address")
 	}
-	sess, err := sm.NewSession(log.NewNopLogger(), params)
+	sess, err := sm.NewSession(envLog, params)
 	if err != nil {
 		ln.Close()
 		return vw.Violationf("new-session-error", "%v", err)
@@ -444,11 +485,20 @@ func runC17(c c17Case, tr *vw.Trace) *vw.Violation {
 				if up && !pending && cur != nil && !cur.dead {
 					return vw.Violationf("peer-table-differs", "%s: the connection is up and nothing is pending, but the peer's table is %v, last requested set %v", label, got, want)
 				}
-				if grace {
-					return vw.Violationf("not-converged-liveness-by-timeout", "%s: after 13 s the peer's table is %v, last requested set %v (connection up=%v pending=%v)", label, got, want, up, pending)
+				if !up {
+					if e := envLog.portTrouble(); e != "" {
+						// the session cannot even dial: the machine is out of local ports (connections of earlier cases
+						// linger in TIME_WAIT, other checks run beside this one). Says nothing about the session.
+						panic("verif-inconclusive: the session's dial fails for lack of local ports: " + e)
+					}
 				}
+				if grace {
+					return vw.Violationf("not-converged-liveness-by-timeout", "%s: after 48 s the peer's table is %v, last requested set %v (connection up=%v pending=%v; the session's last connect errors: %v)", label, got, want, up, pending, envLog.recent())
+				}
+				// the retry back-off of the session doubles from 1 s: 45 s more leave room for six failed attempts in a row
+				// on a machine that is busy with other checks; a session that never comes back is reported all the same
 				grace = true
-				deadline = time.Now().Add(10 * time.Second)
+				deadline = time.Now().Add(45 * time.Second)
 			}
 			time.Sleep(200 * time.Microsecond)
 		}
